@@ -774,6 +774,9 @@ func Run(r *mc.Run) {
 		c.phaseSizes(ts.Add(sizeBudget))
 	}
 	r.SetExtra("phase_S_seconds", time.Since(ts).Seconds())
+	if want("I") {
+		c.phaseInts()
+	}
 	t0 := time.Now()
 	if want("A") {
 		c.phaseRoundTrip()
@@ -857,6 +860,10 @@ func Replay(r *mc.Run, v *mc.Violation) {
 		}
 	}()
 	data, _ := hex.DecodeString(in.Hex)
+	if in.Phase == "ints" {
+		c.phaseInts() // small and deterministic: re-run as a whole (reports through r directly)
+		return
+	}
 	switch in.Phase {
 	case "roundtrip":
 		t := c.byName[in.Type]
